@@ -450,16 +450,15 @@ def run_limits(inp, rng):
     traces, seg_mismatch = [], []
     cases = 0
     for lim in inp["limits"]:
-        for which in ("maxFrame", "maxMsg", "both"):
+        for which in ("maxFrame", "maxMsg", "both", "equal"):
             for size in sorted({max(0, lim - 1), lim, lim + 1, min(lim * 100, 300000) + 7}):
                 for k in (1, 2, 3, 4):
                     for rep in range(inp.get("reps", 1)):
                         role = rng.choice(["server", "client"])
                         ctx = dict(role=role, failByDrop=rng.random() < 0.5, compress=rng.random() < 0.4,
-                                   maxFrame=lim if which in ("maxFrame", "both") else 0,
-                                   maxMsg=lim if which in ("maxMsg", "both") else (lim * 2 if which == "both" else 0))
-                        if which == "both":
-                            ctx["maxMsg"] = lim * 2
+                                   maxFrame=lim if which in ("maxFrame", "both", "equal") else 0,
+                                   maxMsg=lim if which in ("maxMsg", "equal") else (lim * 2 if which == "both" else 0))
+                        closing_first = rng.random() < 0.25          # the application's own close is in flight
                         binary = rng.random() < 0.5
                         compressed_msg = ctx["compress"] and rng.random() < 0.6
                         parts = compositions(rng, size, k)
@@ -470,6 +469,9 @@ def run_limits(inp, rng):
                         for seg in ("whole", rng.choice(["bytes", 2, 5])):
                             krng = random.Random(keyseed)
                             s = Session(ctx)
+                            if closing_first:
+                                s.lclose()
+                                del s.total[:]
                             msgs = [(binary, compressed_msg, parts), (True, False, [min(3, lim)])]   # a small follow-up message
                             stop = False
                             for (mbin, mcmp, mparts) in msgs:
